@@ -66,6 +66,8 @@ type Ctx struct {
 	replayDir   string
 	firstReplay string
 	noFiles     bool
+	// BeforeExit, when set, is called by Finish with the exit code right before os.Exit.
+	BeforeExit func(code int)
 }
 
 // Violation is one refuting event.
@@ -429,14 +431,14 @@ func (c *Ctx) Finish() {
 		rule += " (distinct-hash set reached its cap; distinct_nontrivial is a lower bound)"
 	}
 	cov := map[string]any{
-		"evaluations":         c.evals,
-		"distinct_nontrivial": distinct,
-		"rule":                rule,
-		"samples":             samples,
-		"classes":             c.classes,
-		"dontcare":            c.dontcare,
-		"exhaustive_subspaces": exh,
-		"exhaustive":          false,
+		"evaluations":             c.evals,
+		"distinct_nontrivial":     distinct,
+		"rule":                    rule,
+		"samples":                 samples,
+		"classes":                 c.classes,
+		"dontcare":                c.dontcare,
+		"exhaustive_subspaces":    exh,
+		"exhaustive":              false,
 		"oracle_selftests_passed": c.selftests,
 		"known_findings_observed": kf,
 		"inconclusive_reasons":    c.incon,
@@ -485,6 +487,9 @@ func (c *Ctx) Finish() {
 			c.Prop, c.Tier, c.Seed, c.evals, distinct, len(c.classes), sumMap(c.dontcare), wall)
 	}
 	c.mu.Unlock()
+	if c.BeforeExit != nil {
+		c.BeforeExit(code)
+	}
 	os.Exit(code)
 }
 
